@@ -36,9 +36,12 @@ type vfFwdScenario struct {
 	// SourceIgnoresHalfClose: the source does not end the stream when the proxy half-closes it (a hung or
 	// slow peer); the handler must still return because the proxy cancels the outgoing stream.
 	SourceIgnoresHalfClose bool `json:"source_ignores_half_close"`
-	NResp                  int  `json:"n_resp"`
-	NAck                   int  `json:"n_ack"`
-	MaxAdv                 int  `json:"max_adv"`
+	// Sibling: a second pass-through stream with the same shard metadata is open next to the one under test
+	// (shard-count multiples, a reconnect overlap); it can end (sib:end) while the stream under test keeps relaying.
+	Sibling bool `json:"sibling,omitempty"`
+	NResp   int  `json:"n_resp"`
+	NAck    int  `json:"n_ack"`
+	MaxAdv  int  `json:"max_adv"`
 }
 
 type vfFwdJob struct {
@@ -57,28 +60,34 @@ type vfFwdOut struct {
 }
 
 type vfFwdExec struct {
-	sc        vfFwdScenario
-	ini       *vfServerStream
-	src       *vfClientStream
-	client    *vfAdminClient
-	openFail  bool
-	sentResp  []*adminservice.StreamWorkflowReplicationMessagesResponse // emitted by source
-	gotResp   []*adminservice.StreamWorkflowReplicationMessagesResponse // received by initiator
-	sentAck   []*adminservice.StreamWorkflowReplicationMessagesRequest
-	gotAck    []*adminservice.StreamWorkflowReplicationMessagesRequest
-	ending    string // first ending event
-	failIni   bool
-	failSrc   bool
-	iniFailed bool
-	srcFailed bool
-	now       int
-	viol      []vfViolation
-	events    []string
-	panicked  string
-	opened    bool
-	srcMD     metadata.MD
-	spawn     func(name string, f func())
-	changed   chan struct{}
+	sc         vfFwdScenario
+	ini        *vfServerStream
+	src        *vfClientStream
+	client     *vfAdminClient
+	openFail   bool
+	sentResp   []*adminservice.StreamWorkflowReplicationMessagesResponse // emitted by source
+	gotResp    []*adminservice.StreamWorkflowReplicationMessagesResponse // received by initiator
+	sentAck    []*adminservice.StreamWorkflowReplicationMessagesRequest
+	gotAck     []*adminservice.StreamWorkflowReplicationMessagesRequest
+	ending     string // first ending event
+	failIni    bool
+	failSrc    bool
+	iniFailed  bool
+	srcFailed  bool
+	now        int
+	viol       []vfViolation
+	events     []string
+	panicked   string
+	opened     bool
+	srcMD      metadata.MD
+	spawn      func(name string, f func())
+	changed    chan struct{}
+	sibIni     *vfServerStream
+	sibSrc     *vfClientStream
+	sibEnded   bool
+	sibStarted bool
+	// startSibling starts the sibling handler (after the stream under test has opened its source stream)
+	startSibling func()
 }
 
 func (e *vfFwdExec) violate(sig, detail string) {
@@ -131,6 +140,11 @@ func vfNewFwdExec(sc vfFwdScenario, openFail bool) *vfFwdExec {
 		if e.openFail {
 			return errors.New("verif: cannot open source stream")
 		}
+		if e.src != nil && e.sc.Sibling && e.sibSrc == nil {
+			// the second stream opened towards the source belongs to the sibling handler
+			e.sibSrc = cs
+			return nil
+		}
 		e.src = cs
 		cs.noAutoEOF = e.sc.SourceIgnoresHalfClose
 		e.srcMD = cs.md
@@ -177,6 +191,20 @@ func (e *vfFwdExec) start() {
 		}()
 		e.ini.retErr = srv.StreamWorkflowReplicationMessages(e.ini)
 	})
+	if e.sc.Sibling {
+		e.sibIni = vfNewServerStream(history.ClusterShardID{ClusterID: 2, ShardID: 3}, history.ClusterShardID{ClusterID: 1, ShardID: 3}, nil)
+		e.startSibling = func() {
+			start("sibling", func() {
+				defer func() {
+					_ = recover()
+					e.sibIni.returned = true
+					e.sibIni.cancel()
+					e.notify()
+				}()
+				_ = srv.StreamWorkflowReplicationMessages(e.sibIni)
+			})
+		}
+	}
 }
 
 func (e *vfFwdExec) end(kind string) {
@@ -215,6 +243,9 @@ func (e *vfFwdExec) enabled() []string {
 	}
 	if e.now < e.sc.MaxAdv {
 		out = append(out, "adv")
+	}
+	if e.sibStarted && !e.sibEnded && !e.sibIni.returned {
+		out = append(out, "sib:end")
 	}
 	return out
 }
@@ -267,6 +298,10 @@ func (e *vfFwdExec) apply(a string) error {
 	case "adv":
 		e.now++
 		time.Sleep(time.Second)
+	case "sib:end":
+		e.sibEnded = true
+		e.logf("the sibling stream (same shard) ends: its initiator hangs up")
+		e.sibIni.cancel()
 	default:
 		return fmt.Errorf("unknown action %s", a)
 	}
@@ -315,7 +350,11 @@ func (e *vfFwdExec) key() string {
 	if e.src != nil {
 		srcState = fmt.Sprintf("%v/%v/%v/%v/%v", e.src.ended, e.src.broken, e.src.closeSent, e.src.ctx.Err() != nil, e.src.atHome())
 	}
-	return fmt.Sprintf("t=%d end=%s sr=%d gr=%d sa=%d ga=%d fi=%v fs=%v if=%v sf=%v ini=%v/%v/%v/%v src=%s open=%v",
+	sib := ""
+	if e.sc.Sibling {
+		sib = fmt.Sprintf(" sib=%v/%v", e.sibEnded, e.sibIni != nil && e.sibIni.returned)
+	}
+	return sib + fmt.Sprintf("t=%d end=%s sr=%d gr=%d sa=%d ga=%d fi=%v fs=%v if=%v sf=%v ini=%v/%v/%v/%v src=%s open=%v",
 		e.now, e.ending, len(e.sentResp), len(e.gotResp), len(e.sentAck), len(e.gotAck), e.failIni, e.failSrc, e.iniFailed, e.srcFailed,
 		e.ini.returned, e.ini.broken, e.ini.ctx.Err() != nil, e.ini.atHome(), srcState, e.opened)
 }
@@ -362,9 +401,22 @@ func vfRunFwd(t *testing.T, job *vfFwdJob) (out vfFwdOut) {
 			if openFail {
 				path = path[1:]
 			}
+			vrt.ResetLocks()
 			e := vfNewFwdExec(job.Sc, openFail)
 			e.start()
 			synctest.Wait()
+			if e.startSibling != nil && e.src != nil {
+				e.startSibling()
+				e.sibStarted = true
+				synctest.Wait()
+			}
+			blocked := func(when string) bool {
+				if b := vrt.BlockedLockers(); len(b) > 0 {
+					e.violate("end/relay-blocked-on-a-lock-nobody-releases", fmt.Sprintf("%s: %v", when, b))
+					return true
+				}
+				return false
+			}
 			for _, a := range path {
 				if err := e.apply(a); err != nil {
 					out.Err = err.Error()
@@ -372,6 +424,9 @@ func vfRunFwd(t *testing.T, job *vfFwdJob) (out vfFwdOut) {
 				}
 				synctest.Wait()
 				e.check()
+				if blocked("after " + a) {
+					break
+				}
 			}
 			out.Key = e.key()
 			out.Enabled = e.enabled()
@@ -382,8 +437,21 @@ func vfRunFwd(t *testing.T, job *vfFwdJob) (out vfFwdOut) {
 				out.Enabled = nil
 			}
 			e.closing(synctest.Wait)
+			if e.sibStarted && !e.sibIni.returned {
+				e.sibIni.cancel()
+				synctest.Wait()
+				time.Sleep(2 * time.Second)
+				synctest.Wait()
+				if !e.sibIni.returned && len(vrt.BlockedLockers()) == 0 {
+					e.violate("end/handler-does-not-return", "the sibling stream's handler is still running 2 s after its initiator hung up")
+				}
+			}
 			// let stray workers observe the cancelled contexts before the bubble ends
 			time.Sleep(3 * time.Second)
+			synctest.Wait()
+			blocked("at the end")
+			// goroutines parked on a lock nobody will release can never finish: make them exit so the bubble can end
+			vrt.AbandonBlockedLockers()
 			synctest.Wait()
 			out.Viol = e.viol
 			out.Outcome = fmt.Sprintf("%s resp=%d/%d ack=%d/%d ret=%v", e.ending, len(e.gotResp), len(e.sentResp), len(e.gotAck), len(e.sentAck), e.ini.retErr)
@@ -449,12 +517,15 @@ func TestVerifC06(t *testing.T) {
 	outcomes := map[string]bool{}
 	exhaustive := true
 	var harnessErrs []string
-	for _, variant := range []vfFwdScenario{{Mode: "default"}, {Mode: "lcm"}, {Mode: "default", SourceIgnoresHalfClose: true}} {
+	for _, variant := range []vfFwdScenario{{Mode: "default"}, {Mode: "lcm"}, {Mode: "default", SourceIgnoresHalfClose: true}, {Mode: "default", Sibling: true}} {
 		mode := variant.Mode
 		if variant.SourceIgnoresHalfClose {
 			mode += "+source-ignores-half-close"
 		}
-		sc := vfFwdScenario{Mode: variant.Mode, SourceIgnoresHalfClose: variant.SourceIgnoresHalfClose, NResp: n, NAck: n, MaxAdv: 1}
+		if variant.Sibling {
+			mode += "+sibling-stream-of-the-same-shard"
+		}
+		sc := vfFwdScenario{Mode: variant.Mode, SourceIgnoresHalfClose: variant.SourceIgnoresHalfClose, Sibling: variant.Sibling, NResp: n, NAck: n, MaxAdv: 1}
 		type node struct {
 			path    []string
 			enabled []string
